@@ -253,26 +253,61 @@ def r4_builder(ctx):
              "`omitting a member does not compile`: a default/optional field or a dropped field makes the omission compile", floor=8)
     ast = ctx.ast
     fn = ast.fn(MI, "make_fields", impl_self="Interpolation")
-    t = flatp(show(fn.body)) if fn else ""
-    checks = {
-        "vars": "letvars=keys.iter_vars.map|key,infos|{",
-        "formatters-all": "letmutformatters=infos.formatters.iter.copied.mapInto::into.collect::<Vec<_>>;",
-        "count": "plural:infos.range_count.mapInto::into",
-        "comps": "letcomps=keys.iter_comps.map|key|{",
-        "all": "letmutfields:Vec<_>=vars.chaincomps.collect;",
-    }
-    for k, frag in checks.items():
-        if has(t, frag):
-            r.inst("make_fields#" + k, frag[:80])
+    if fn is None:
+        r.missing("Interpolation::make_fields")
+    else:
+        # evaluated (rules/absint.py, with InterpolationKeys::iter_vars / iter_comps under it): every collected variable and
+        # component becomes exactly one field, whatever its formatters / count; fields are ordered by key
+        from rules import absint
+        from rules.absint import AEval, C, CF, L, T
+        S = lambda v: ("str", v)  # noqa: E731
+        K = lambda n: CF("Key", name=S(n))  # noqa: E731
+        shapes = [
+            ([("var_b", ["Number", "None"], C("Some", C("Plural"))), ("var_a", [], C("None"))], ["comp_z", "comp_c"]),
+            ([("var_count", ["None"], C("Some", C("Range", C("I32")))), ("var_x", ["Date", "None", "List"], C("None")), ("var_y", ["None"], C("None"))], []),
+            ([], ["comp_b"]), ([], []),
+            ([("var_z", ["Currency"], C("None"))], ["comp_a", "comp_m", "comp_zz"]),
+        ]
+        bad = []
+        for vs, cs in shapes:
+            keys = CF("InterpolationKeys", variables=L(*[T(K(n), CF("VarInfo", formatters=L(*[C(f) for f in fs]), range_count=rc)) for n, fs, rc in vs]), components=L(*[K(c) for c in cs]))
+            got = AEval(funcs={}).run_fn(fn, [keys])
+            if isinstance(got, str):
+                bad.append("cannot be evaluated: %s" % got)
+                break
+            if got[0] != "list":
+                bad.append("returns %s" % absint.fmt(got)[:80])
+                break
+            fields = [absint.fields_of(x) for x in got[1]]
+            names = [absint.fields_of(f.get("key"))["name"][1] if f.get("key") and f["key"][0] == "ctor" else "?" for f in fields]
+            want_names = sorted([n for n, _f, _r in vs] + cs)
+            if names != want_names:
+                bad.append("variables %s and components %s give the fields %s, expected one field per argument ordered by key: %s" % ([v[0] for v in vs], cs, names, want_names))
+                continue
+            gens = [f.get("generic") for f in fields]
+            if len(set(gens)) != len(gens):
+                bad.append("two fields share the generic parameter %s" % [absint.fmt(g) for g in gens])
+            for f, nm in zip(fields, names):
+                voc = f.get("var_or_comp")
+                if nm in cs:
+                    if not (voc and voc[0] == "ctor" and voc[1] == "Comp"):
+                        bad.append("component %s becomes %s" % (nm, absint.fmt(voc) if voc else voc))
+                    continue
+                fs_, rc = next((fs, rc) for n, fs, rc in vs if n == nm)
+                vf = absint.fields_of(voc) if voc and voc[0] == "ctor" and voc[1] == "Var" else None
+                if vf is None:
+                    bad.append("variable %s becomes %s" % (nm, absint.fmt(voc) if voc else voc))
+                    continue
+                gotf = sorted(x[1] for x in vf.get("formatters", L())[1])
+                if gotf != sorted(fs_):
+                    bad.append("variable %s with formatters %s keeps %s" % (nm, sorted(fs_), gotf))
+                if (vf.get("plural") == C("None")) != (rc == C("None")):
+                    bad.append("variable %s with count %s gets plural = %s" % (nm, absint.fmt(rc), absint.fmt(vf.get("plural"))))
+        if bad:
+            r.viol("R4:make_fields#all", "make_fields: %s" % "; ".join(bad[:3]), file=MI, line=fn.line)
         else:
-            r.viol("R4:make_fields#" + k, "make_fields changed for `%s`" % k, file=MI)
-    for name, frag in (("iter_vars", "{self.variables.iter.map|key,value|key.clone,value}"), ("iter_comps", "{self.components.iter.cloned}")):
-        f2 = ast.fn(PL, name, impl_self="InterpolationKeys")
-        tt = flatp(show(f2.body)) if f2 else ""
-        if same(tt, frag):
-            r.inst("InterpolationKeys::" + name, "all entries")
-        else:
-            r.viol("R4:InterpolationKeys::" + name, "does not yield every entry: %s" % tt, file=PL)
+            for k in ("vars", "formatters-all", "count", "comps", "all"):
+                r.inst("make_fields#" + k, "%d key sets: one field per variable / component ordered by key, all formatters kept, count kept, distinct generics" % len(shapes))
     fn = ast.fn(MI, "create_types", impl_self="Interpolation")
     if fn is None:
         r.missing("Interpolation::create_types")
